@@ -28,7 +28,7 @@ from .. import hydrogen as hg
 
 PID = "C15"
 PROOF_FILES = ["theories/Props/C15.v", "theories/Checker/Poly.v", "theories/Proofs/HydroPlane.v",
-               "theories/Proofs/HydroHalfplanes.v", "theories/Proofs/HydroPair.v", "theories/Proofs/HydroForce.v", "theories/Proofs/HydroParallel.v", "theories/Proofs/HydroOrder.v", "theories/Proofs/HydroInside.v", "theories/Proofs/HydroBary.v"]
+               "theories/Proofs/HydroHalfplanes.v", "theories/Proofs/HydroPair.v", "theories/Proofs/HydroForce.v", "theories/Proofs/HydroParallel.v", "theories/Proofs/HydroOrder.v", "theories/Proofs/HydroInside.v", "theories/Proofs/HydroBary.v", "theories/Proofs/HydroSame.v"]
 EPS = 2.220446049250313e-16
 
 CERT_HEADER = """From Coq Require Import ZArith QArith List.
